@@ -113,6 +113,89 @@ def apply_transform(root: str, spec) -> str | None:
             with open(p, 'w', encoding='utf-8') as f:
                 f.write(out)
         return None
+    if kind == 'invert-ifs':
+        # every `if c: A else: B` (not an elif chain) of the named files becomes `if not (c): B else: A`
+        class Inv(ast.NodeTransformer):
+            def visit_If(self, n):
+                self.generic_visit(n)
+                if n.orelse and not (len(n.orelse) == 1 and isinstance(n.orelse[0], ast.If)) and \
+                        not (len(n.body) == 1 and isinstance(n.body[0], ast.If)):
+                    t = n.test
+                    nt = t.operand if (isinstance(t, ast.UnaryOp) and isinstance(t.op, ast.Not)) else \
+                        ast.UnaryOp(op=ast.Not(), operand=t)
+                    return ast.copy_location(ast.If(test=nt, body=n.orelse, orelse=n.body), n)
+                return n
+        for rel in spec[1]:
+            p = os.path.join(root, rel)
+            tree = Inv().visit(ast.parse(open(p, encoding='utf-8').read()))
+            ast.fix_missing_locations(tree)
+            with open(p, 'w', encoding='utf-8') as f:
+                f.write(ast.unparse(tree) + '\n')
+        return None
+    if kind == 'first-arg-temps':
+        # `f(g(..), ..)` as a whole statement or the value of a simple assignment: the first argument, when it is a
+        # call and `f` itself is a plain name / attribute of a name, is evaluated into a fresh local first
+        counter = [0]
+
+        class Tmp(ast.NodeTransformer):
+            def _do(self, stmts):
+                out = []
+                for st in stmts:
+                    st = self.visit(st)
+                    call = None
+                    if isinstance(st, ast.Expr) and isinstance(st.value, ast.Call):
+                        call = st.value
+                    elif isinstance(st, ast.Assign) and isinstance(st.value, ast.Call) and len(st.targets) == 1 and \
+                            isinstance(st.targets[0], ast.Name):
+                        call = st.value
+                    if call is not None and call.args and isinstance(call.args[0], ast.Call) and \
+                            (isinstance(call.func, ast.Name) or (isinstance(call.func, ast.Attribute) and
+                                                                 isinstance(call.func.value, ast.Name))) and \
+                            not isinstance(call.args[0].func, ast.Lambda):
+                        counter[0] += 1
+                        nm = f'arg0_{counter[0]}'
+                        asg = ast.Assign(targets=[ast.Name(id=nm, ctx=ast.Store())], value=call.args[0])
+                        call.args[0] = ast.Name(id=nm, ctx=ast.Load())
+                        out.append(ast.copy_location(asg, st))
+                    out.append(st)
+                return out
+
+            def generic_visit(self, node):
+                super().generic_visit(node)
+                for fld in ('body', 'orelse', 'finalbody'):
+                    v = getattr(node, fld, None)
+                    if isinstance(v, list) and v and isinstance(v[0], ast.stmt):
+                        setattr(node, fld, self._do_plain(v))
+                return node
+
+            def _do_plain(self, stmts):
+                out = []
+                for st in stmts:
+                    call = None
+                    if isinstance(st, ast.Expr) and isinstance(st.value, ast.Call):
+                        call = st.value
+                    elif isinstance(st, ast.Assign) and isinstance(st.value, ast.Call) and len(st.targets) == 1 and \
+                            isinstance(st.targets[0], ast.Name):
+                        call = st.value
+                    if call is not None and call.args and isinstance(call.args[0], ast.Call) and \
+                            (isinstance(call.func, ast.Name) or (isinstance(call.func, ast.Attribute) and
+                                                                 isinstance(call.func.value, ast.Name))):
+                        counter[0] += 1
+                        nm = f'arg0_{counter[0]}'
+                        asg = ast.Assign(targets=[ast.Name(id=nm, ctx=ast.Store())], value=call.args[0])
+                        call.args[0] = ast.Name(id=nm, ctx=ast.Load())
+                        out.append(ast.copy_location(asg, st))
+                    out.append(st)
+                return out
+        for rel in spec[1]:
+            p = os.path.join(root, rel)
+            tree = ast.parse(open(p, encoding='utf-8').read())
+            for fn in [n for n in ast.walk(tree) if isinstance(n, ast.FunctionDef)]:
+                Tmp().generic_visit(fn)
+            ast.fix_missing_locations(tree)
+            with open(p, 'w', encoding='utf-8') as f:
+                f.write(ast.unparse(tree) + '\n')
+        return None
     if kind == 'rename':
         p = os.path.join(root, spec[1])
         src = open(p, encoding='utf-8').read()
